@@ -173,6 +173,14 @@ def rich_world(seed, n_chroms=6, genes_per_chrom=3, groups=3, multimappers=True,
                 w.make_read(ga.chrom, one, name=name, flag=256, mapq=60, truth={"multimap": True, "class": "inconsistent-one-difference"})
                 w.make_read(gb.chrom, two, name=name, flag=256, mapq=60, truth={"multimap": True, "class": "inconsistent-two-differences"})
         if len(fam) >= 2:
+            # chimeric reads: the primary alignment is a full-length copy of one family member, a SUPPLEMENTARY record (0x800) a full-length
+            # copy of another one; supplementary records are never assigned
+            for k in range(4):
+                name = "supp%04d" % k
+                ga, gb = (fam[0], fam[1]) if k % 2 == 0 else (fam[1], fam[0])
+                w.make_read(ga.chrom, list(ga.transcripts[0].exons), name=name, flag=0, mapq=60, truth={"multimap": True, "class": "primary-of-chimeric-read"})
+                w.make_read(gb.chrom, list(gb.transcripts[0].exons), name=name, flag=2048, mapq=60, truth={"multimap": True, "class": "supplementary-record", "supplementary": True})
+        if len(fam) >= 2:
             # ties: no alignment is primary, all are equally good -> the read stays on several loci
             for k in range(8):
                 name = "tie%04d" % k
